@@ -290,6 +290,11 @@ def removeTag (data : Bytes) : Bytes :=
   else if (pre "signMessagePrefix").isPrefixOf d || (pre "macMessagePrefix").isPrefixOf d || (pre "encryptMessagePrefix").isPrefixOf d then d.drop 2
   else d
 
+/-- tokens of `msg.otherkey`: `… | k1 | k2 …` ↦ `… | k2 …` -/
+def dropFirstGroup : List String → List String
+  | [] => []
+  | t :: rest => if t == "|" then "|" :: (rest.dropWhile (· != "|")).drop 1 else t :: dropFirstGroup rest
+
 def dispatch (op : String) (args : List String) : Option String :=
   match op with
   | "msg.produce" => some (opProduce args)
@@ -318,6 +323,8 @@ def dispatch (op : String) (args : List String) : Option String :=
       | kind :: mode :: _ext1 :: msg1 :: ext2 :: msg2 :: rest =>
         opConsume (kind :: mode :: ext2 :: (if msg2 == "=" then msg1 else msg2) :: rest)
       | _ => "bad-op")
+  -- one decoded object asked under a first key, then under the op's keys: answered like a fresh object under the latter
+  | "msg.otherkey" => some (opConsume (dropFirstGroup args))
   | "msg.untag" => some (match args with | [h] => (match unhex h with | some b => "ok " ++ hex (removeTag b) | none => "bad-op") | _ => "bad-op")
   | _ => none
 
